@@ -167,7 +167,7 @@ func rulesC18(c *Ctx) {
 					target = ix.X
 				}
 			case *ast.CallExpr:
-				if id, ok := unparen(x.Fun).(*ast.Ident); ok && id.Name == "delete" && len(x.Args) == 2 {
+				if id, ok := unparen(x.Fun).(*ast.Ident); ok && id.Name == "delete" && len(x.Args) >= 2 {
 					target = x.Args[0]
 				}
 				if callee := p.Callee(x); callee != nil && inPlace[p.FuncName(callee)] {
